@@ -101,6 +101,12 @@ def corpus_docs():
                  "job": {"xs": list(range(12))},
                  "doc": _wf({"xs": "int[]"}, {"s": {"run": T["inc"](), "in": {"x": "xs"}, "scatter": "x", "out": ["o"]}},
                             {"o": {"type": A, "outputSource": "s/o"}}, ["ScatterFeatureRequirement"])})
+    # optional scattered input with a default next to another input: a null FOLLOWED by values (DefaultRetagTransformer)
+    docs.append({"name": "scatter-default-over-nulls", "line": None, "out": "o", "key": None, "job": {"xs": [1, None, 3, None, 5], "k": 1},
+                 "doc": _wf({"xs": {"type": {"type": "array", "items": ["null", "int"]}}, "k": "int"},
+                            {"s": {"run": T["addk_default"](), "in": {"x": "xs", "k": "k"}, "scatter": "x", "out": ["o"]}},
+                            {"o": {"type": A, "outputSource": "s/o"}}, ["ScatterFeatureRequirement"]),
+                 "expect": [101, 107, 103, 107, 105]})
     # linkMerge
     docs.append({"name": "merge-nested-duplicate", "line": "mergen a=1 b=2 a=1", "out": "o", "key": "linkMerge:duplicate-source",
                  "job": {"a": 1, "b": 2},
@@ -205,7 +211,7 @@ class C29(Property):
     def _operator_level(self, ctx: Ctx) -> None:
         rng = ctx.rng
         lines, real, meta = [], [], []
-        n = 300 if ctx.tier == "quick" else 3000
+        n = 200 if ctx.tier == "quick" else 3000
         boundary = [("first", []), ("only", []), ("all", []), ("first", [None]), ("only", [None, None]), ("only", [5]), ("all", [None])]
         for i in range(n):
             if i < len(boundary):
@@ -267,6 +273,11 @@ class C29(Property):
         elif o1 == "success" and sf["norm"] != ct["norm"]:
             diff = {k: (sf["norm"].get(k), ct["norm"].get(k)) for k in set(sf["norm"]) | set(ct["norm"]) if sf["norm"].get(k) != ct["norm"].get(k)}
             ctx.fail(key, f"{d['name']}: outputs differ (streamflow, cwltool): {json.dumps(diff)[:600]}", case)
+        if "expect" in d:
+            for who, o, side in (("StreamFlow", o1, sf), ("cwltool", o2, ct)):
+                got = "FAIL" if o != "success" else side["norm"].get(d["out"])
+                if got != d["expect"] and who == "StreamFlow":
+                    ctx.fail(key, f"{d['name']}: StreamFlow gives {got}, the standard {d['expect']}", case)
         # the Lean model / spec on corpus documents
         if model_line is not None:
             spec, sfm = _expected(model_line, d)
@@ -278,11 +289,14 @@ class C29(Property):
                 ctx.disagree("operator spec vs cwltool run", f"{d['name']}: cwltool {got_ct}, Lean spec {spec}", case)
 
     def explore(self, ctx: Ctx) -> None:
+        C.enable_bytecode_cache()
         self._operator_level(ctx)
         C.warm_up()
         rng = ctx.rng
         corpus = corpus_docs()
-        lines = ctx.lean("Drivers/C29.lean", [d["line"] for d in corpus])
+        with_line = [d for d in corpus if d["line"] is not None]
+        got = dict(zip([d["name"] for d in with_line], ctx.lean("Drivers/C29.lean", [d["line"] for d in with_line])))
+        lines = [got.get(d["name"]) for d in corpus]
         cases, by_id = [], {}
         for i, (d, ln) in enumerate(zip(corpus, lines)):
             d["corpus"] = True
@@ -292,7 +306,7 @@ class C29(Property):
             json.dump(d["job"], open(os.path.join(dd, "job.json"), "w"))
             by_id[f"c{i}"] = (d, ln)
             cases.append({"id": f"c{i}", "dir": dd, "doc": "wf.cwl", "job": "job.json", "name": "wf", "timeout": 900})
-        nrand = {"quick": 12, "thorough": 160}[ctx.tier] * (2 if ctx.mode == "search" else 1)
+        nrand = {"quick": 6, "thorough": 160}[ctx.tier] * (2 if ctx.mode == "search" else 1)
         for i in range(nrand):
             dd = os.path.join(ctx.scratch, f"rand{ctx.mode}{i}")
             desc = G.gen_workflow(rng, dd, G.SAFE_FEATURES)
